@@ -144,6 +144,7 @@ type tcase struct {
 	spin    int
 	blobs   []blob
 	changes []change
+	calFrac float64    // > 0: Consume is first run without a timeout and timed; the timeout becomes this fraction of that time
 	szq     [][2]int64 // pairs of sizes put to the real sizesAreClose (also outside what Consume can reach: 0, 1, < 32, > 2^32)
 }
 
@@ -296,6 +297,35 @@ func run(tc *tcase) Sx {
 		}
 		api.SortRenameCandidates(cands, origin, func(i int) string { return nameOf(addI[i].name) })
 		csort = T("csort", Ints(ds), Ints(cands))
+	}
+
+	if tc.calFrac > 0 {
+		// calibration: the same input (a copy of the change objects: an implementation that writes into them must
+		// not disturb the real run) without a timeout, under the same GOMAXPROCS
+		cp := make(object.Changes, len(changes))
+		for i, ch := range changes {
+			x := *ch
+			cp[i] = &x
+		}
+		ra2 := &api.RenameAnalysis{SimilarityThreshold: tc.thr, Timeout: time.Hour}
+		if err := ra2.Initialize(nil); err != nil {
+			panic(err)
+		}
+		oldp := runtime.GOMAXPROCS(tc.procs)
+		t0 := time.Now()
+		Catch(func() {
+			ra2.Consume(map[string]interface{}{api.DependencyTreeChanges: cp, api.DependencyBlobCache: cache})
+		})
+		full := time.Since(t0)
+		runtime.GOMAXPROCS(oldp)
+		tc.timeout = int64(float64(full) * tc.calFrac)
+		if tc.timeout < 2 {
+			tc.timeout = 2
+		}
+		if tc.timeout%int64(time.Millisecond) == 0 {
+			tc.timeout++
+		}
+		ra.Timeout = time.Duration(tc.timeout)
 	}
 
 	// ----- the run itself, under the requested scheduling perturbation -----
@@ -991,6 +1021,43 @@ func big(c *Config, n int) *tcase {
 	return tc
 }
 
+// the timeout expires WHILE stage 2 runs: 4..10 deleted and as many added blobs of about one size, mostly
+// dissimilar (every blob has many candidates and most comparisons fail, so the matchers are busy for a while),
+// a few similar pairs and identical hashes; Consume is timed without a timeout first and then run with
+// 3..97 % of that time (the recorded timeout is the one used)
+func midrun(c *Config) *tcase {
+	r := c.Rng
+	tc := &tcase{kind: "midrun", thr: []int{80, 80, 50, 90, 30}[r.Intn(5)], timeout: hour, procs: 1 + 15*r.Intn(2), spin: r.Intn(3)}
+	tc.calFrac = 0.03 + 0.94*r.Float64()
+	n := 4 + r.Intn(7)
+	nl := 2 + r.Intn(2)
+	w := 10 + r.Intn(10)
+	for i := 0; i < 2*n; i++ {
+		d := blobDesc{fam: i, nlines: nl, width: w, fill: 1 + i%26, tail: r.Intn(3)}
+		if i >= n && r.Intn(5) == 0 {
+			// similar to a deleted blob: the same text, one line edited
+			d = tc.blobs[r.Intn(n)].desc
+			d.period, d.variant = nl, r.Intn(nl)
+		}
+		tc.blobs = append(tc.blobs, blob{randHash(c), d})
+	}
+	names := r.Perm(64)
+	for i := 0; i < n; i++ {
+		tc.changes = append(tc.changes, change{kind: "d", name: names[i], from: i})
+		b := n + i
+		if r.Intn(10) == 0 {
+			b = r.Intn(n) // identical hash: an exact rename
+		}
+		tc.changes = append(tc.changes, change{kind: "a", name: names[n+i], to: b})
+	}
+	if r.Intn(2) == 0 {
+		tc.changes = append(tc.changes, change{kind: "m", name: names[2*n], from: 0, to: n})
+	}
+	r.Shuffle(len(tc.changes), func(i, j int) { tc.changes[i], tc.changes[j] = tc.changes[j], tc.changes[i] })
+	assignModes(c, tc)
+	return tc
+}
+
 // ---------- scale: 10^3 .. 10^6 changes ----------
 
 // H distinct hashes that carry the index i in three bytes: "be0" big-endian in bytes 0..2 (hash order = index
@@ -1191,7 +1258,7 @@ func scaleFamily(c *Config) {
 	emit(c, scaleStage1(c, 10000, 5000, "be17", "desc", "alt", hour))
 	emit(c, scaleStage1(c, 10007, 10007, "le0", "asc", "halves", hour))
 	emit(c, scaleStage1(c, 16385, 4096, "be0", "per4095", "few", ms))
-	emit(c, scaleStage1(c, 100003, 4099, "be0", "rand", "rand", hour))
+	emit(c, scaleStage1(c, 100003, 4099, "be17", "rand", "rand", hour))
 	for _, left := range []int{api.RenameAnalysisSetSizeLimit - 1, api.RenameAnalysisSetSizeLimit, api.RenameAnalysisSetSizeLimit + 1, api.RenameAnalysisSetSizeLimit + 2} {
 		emit(c, limitCase(c, left))
 	}
@@ -1286,6 +1353,9 @@ func main() {
 	}
 	for i := c.Count(600, 15000); i > 0; i-- {
 		emit(c, sim(c, 60, "timeout"))
+	}
+	for i := c.Count(120, 4000); i > 0; i-- {
+		emit(c, midrun(c))
 	}
 	for i := c.Count(800, 20000); i > 0; i-- {
 		emit(c, thresh(c))
